@@ -196,14 +196,16 @@ func runMerge(base *storedTable, others []*storedTable, viaBlocks bool) (out *me
 var c05keys = []string{"a", "b", "c"}
 
 // branch edit of one key: 0 keep, 1 c1<-p, 2 c1<-q, 3 c2<-p, 4 remove (key in base)
-//                         0 absent, 1 add (p,q), 2 add (q,q)          (key not in base)
+//
+//	0 absent, 1 add (p,q), 2 add (q,q)          (key not in base)
+//
 // column op: 0 none, 1 add column d, 2 remove c2, 3 swap c1 c2, 4 rename c2->e
 type c05branch struct {
 	edits [3]int
 	colOp int
 }
 
-func c05base(mask, pos int, keyless, filler bool) *ltable {
+func c05base(mask, pos int, keyless bool, filler int) *ltable {
 	order := [][]string{{"k", "c1", "c2"}, {"c1", "k", "c2"}, {"c1", "c2", "k"}}[pos]
 	t := &ltable{cols: order, pk: "k"}
 	if keyless {
@@ -214,13 +216,23 @@ func c05base(mask, pos int, keyless, filler bool) *ltable {
 			t.rows = append(t.rows, map[string]string{"k": k, "c1": "x", "c2": "y"})
 		}
 	}
-	if filler {
+	switch filler {
+	case 1:
 		for i := 0; i < 5; i++ {
+			t.rows = append(t.rows, map[string]string{"k": fmt.Sprintf("m%d", i), "c1": "f", "c2": "g"})
+		}
+	case 2:
+		// more rows than the standard library sorts by insertion (12), on both sides of the
+		// edited keys: the collector's sorter is then no longer stable
+		for i := 0; i < 8; i++ {
+			t.rows = append(t.rows, map[string]string{"k": fmt.Sprintf("A%d", i), "c1": "f", "c2": "g"})
 			t.rows = append(t.rows, map[string]string{"k": fmt.Sprintf("m%d", i), "c1": "f", "c2": "g"})
 		}
 	}
 	return t
 }
+
+func c05filler(k string) bool { return strings.HasPrefix(k, "m") || strings.HasPrefix(k, "A") }
 
 func c05apply(base *ltable, mask int, b c05branch) *ltable {
 	t := &ltable{pk: base.pk}
@@ -290,7 +302,7 @@ func c05apply(base *ltable, mask int, b c05branch) *ltable {
 		}
 	}
 	for _, r := range base.rows {
-		if strings.HasPrefix(r["k"], "m") {
+		if c05filler(r["k"]) {
 			t.rows = append(t.rows, mk(r["k"], "f", "g"))
 		}
 	}
@@ -304,7 +316,9 @@ func ifStr(b bool, x, y string) string {
 	return y
 }
 
-func keyHashHex(k string) string { return fmt.Sprintf("%x", model.Hash(model.EncodeStrList([]string{k}))) }
+func keyHashHex(k string) string {
+	return fmt.Sprintf("%x", model.Hash(model.EncodeStrList([]string{k})))
+}
 
 // c05expect is the cell model for branches that keep the base's column set.
 func c05expect(base *ltable, mask int, brs []c05branch) (rows []map[string]string, conflicts []string) {
@@ -406,7 +420,7 @@ func c05expect(base *ltable, mask int, brs []c05branch) (rows []map[string]strin
 		}
 	}
 	for _, r := range base.rows {
-		if strings.HasPrefix(r["k"], "m") {
+		if c05filler(r["k"]) {
 			rows = append(rows, map[string]string{"k": r["k"], "c1": "f", "c2": "g"})
 		}
 	}
@@ -432,7 +446,7 @@ func c05Body(nb int) func(c *mc.Ctx) {
 		mask := c.Choose(8)
 		pos := c.ChooseDev(3)
 		keyless := c.ChooseDev(2) == 1
-		filler := c.ChooseDev(2) == 1
+		filler := c.ChooseDev(3)
 		brs := make([]c05branch, nb)
 		for j := range brs {
 			for i := range c05keys {
@@ -661,7 +675,7 @@ func init() {
 		ID:    "C05",
 		Level: "exploration",
 		Rule: "base: every subset of 3 keys with two value columns, key column first / middle / last; N=2 (thorough also N=3) branches, each described by per-key edits {keep, set c1 to p or q, set c2, remove; add the missing key with one of two rows} and a column operation {none, add column d, remove c2, swap c1 c2, rename c2 to e}; " +
-			"the base subset is enumerated completely; key position, edits / column ops / keyless tables / 5 untouched filler rows (several blocks at the scaled block size 3) are explored up to d deviations from 'no edit'. Each tuple is ingested and merged by the real Merger the way the CLI does (conflicts discarded, removed columns = union, SortedRows and SortedBlocks -> committed table). " +
+			"the base subset is enumerated completely; key position, edits / column ops / keyless tables / 5 or 16 untouched filler rows (several blocks at the scaled block size 3; 16 exceeds the insertion-sort threshold of sort.Slice, so the collector's sort is unstable) are explored up to d deviations from 'no edit'. Each tuple is ingested and merged by the real Merger the way the CLI does (conflicts discarded, removed columns = union, SortedRows and SortedBlocks -> committed table). " +
 			"Oracles: cell model for tuples that keep the column set (exact conflict set and result rows); laws merge(base;X,base)=X, merge(base;X,X)=X, merge(base;X,Y)=merge(base;Y,X) by column name; untouched rows unchanged under their own column names whatever the column ops and key position; SortedRows = SortedBlocks; committed result passes the structural oracle. " +
 			"non-trivial = some branch edits something; distinct by tuple",
 		Assumptions: []string{"a column removed by one branch and untouched by the others disappears; remove-vs-unchanged resolves to removal; remove-vs-modified and different changes to one cell are conflicts (the repository's own conventions)", "conflicted keys are discarded the way `wrgl merge --no-gui` does", "3 keys, 2 value columns, one column operation per branch, N <= 3"},
